@@ -1,6 +1,7 @@
 /* libc stand-ins for the generated C (externals are renamed ext_<name> by ir2c) */
 #include "verif_rt.h"
 uint64_t ext_strlen(char* s) { uint64_t n = 0; while (s[n]) n++; return n; }
+uint64_t ext_strnlen(char* s, uint64_t max) { uint64_t n = 0; while (n < max && s[n]) n++; return n; }
 uint32_t ext_memcmp(char* a, char* b, uint64_t n) { for (uint64_t i = 0; i < n; i++) { unsigned char x = (unsigned char)a[i], y = (unsigned char)b[i]; if (x != y) return x < y ? (uint32_t)-1 : 1u; } return 0; }
 uint32_t ext_bcmp(char* a, char* b, uint64_t n) { for (uint64_t i = 0; i < n; i++) if (a[i] != b[i]) return 1; return 0; }
 char* ext_memchr(char* s, uint32_t c, uint64_t n) { for (uint64_t i = 0; i < n; i++) if ((unsigned char)s[i] == (unsigned char)c) return s + i; return 0; }
